@@ -26,6 +26,7 @@ import "golang.org/x/telemetry/internal/telemetry"
 //@ ghost lockHeld bool
 //@ ghost markerAbsent bool
 //@ ghost private bool
+//@ ghost contributed bool
 
 // An uploader's configuration and logger, and the maps of a report entry, are
 // set when the object is built and never replaced.
@@ -40,6 +41,13 @@ func specUploader(u *uploader) bool {
 // uploaderOK: specUploader plus the invariant of the parse cache: every cached
 // file is a successfully parsed one.
 //@ predicate uploaderOK(u *uploader): specUploader(u) && (forall k string :: in(k, u.cache.m) ==> u.cache.m[k] != nil && u.cache.m[k].Meta != nil && u.cache.m[k].Count != nil)
+
+// specBeforeNewline(k): the part of a stack-counter name before its first
+// newline (the name the configuration lists). Uninterpreted here; tied to the
+// code by the contract of strings.Cut (before == s[:i], no separator inside).
+func specBeforeNewline(k string) string { return k }
+
+//@ uninterpreted specBeforeNewline
 
 // specPrograms: every program entry of a report under construction is usable.
 func specProgram(p *telemetry.ProgramReport) bool {
@@ -109,7 +117,7 @@ func specProgram(p *telemetry.ProgramReport) bool {
 //@   loop 2: invariant u.cache.m == old(u.cache.m) || fresh(u.cache.m)
 //@   loop 1: invariant uploaderOK(u) && todo != nil && $fsops == old($fsops) && (len(todo.readyfiles) > 0 ==> $mode == "on") && $mode != "off" && countFiles != nil && earliest != nil
 //@   loop 2: invariant uploaderOK(u) && todo != nil && (len(todo.readyfiles) > 0 ==> $mode == "on") && $mode != "off"
-//@   modifies todo.readyfiles, u.cache.m, entries(u.cache.m), maps(string, int64), $fsops, $reportExists
+//@   modifies todo.readyfiles, u.cache.m, entries(u.cache.m), maps(string, int64), $fsops, $reportExists, $contributed
 
 //@ contract latestReport
 //@   loop 1: invariant latest == "" || strings.HasSuffix(latest, ".json")
@@ -179,6 +187,13 @@ func specProgram(p *telemetry.ProgramReport) bool {
 //@   loop 2: invariant u.cache.m == old(u.cache.m) || fresh(u.cache.m)
 //@   at call NewConfig#1: assume forall i int :: 0 <= i && i < len(u.config.Programs) ==> u.config.Programs[i] != nil
 //@   at call Mode#1: ghost $reportExists = false
+// $contributed: some count file of the week contributed a counter. The
+// "none of the files contained counters" error is returned only if none did.
+//@   at call Mode#1: ghost $contributed = false
+//@   at call IsStackCounter#1: ghost $contributed = true
+//@   at call Errorf#1: assert !$contributed
+//@   loop 1: invariant succeeded <==> $contributed
+//@   loop 2: invariant (succeeded <==> $contributed) && (fok ==> $contributed)
 //@   at call Stat#1: after ghost $reportExists = $reportExists || result1 == nil
 //@   at call Stat#2: after ghost $reportExists = $reportExists || result1 == nil
 //@   at call exclusiveWrite#1: after ghost $reportExists = $reportExists || result1 == nil
@@ -195,7 +210,29 @@ func specProgram(p *telemetry.ProgramReport) bool {
 //@   loop 3: invariant forall i int :: 0 <= i && i < len(report.Programs) ==> report.Programs[i] != nil
 //@   loop 4: invariant uploaderOK(u) && x != nil && x.Counters != nil && x.Stacks != nil && p != nil && cfg != nil && !$reportExists
 //@   loop 5: invariant uploaderOK(u) && x != nil && x.Counters != nil && x.Stacks != nil && p != nil && cfg != nil && !$reportExists
-//@   modifies u.cache.m, entries(u.cache.m), maps(string, int64), $fsops, $reportExists
+// C01, the filter: while copying one program's counters (loop 4) and stacks
+// (loop 5) into the upload report x: x holds only approved names with the local
+// value, and every approved name visited so far is in x.
+//@   loop 4: invariant forall k string :: in(k, x.Counters) ==> in(k, p.Counters) && cfg.HasCounter(p.Program, k) && report.X <= cfg.Rate(p.Program, k) && x.Counters[k] == p.Counters[k]
+//@   loop 4: invariant forall k string :: visited(p.Counters, k) && cfg.HasCounter(p.Program, k) && report.X <= cfg.Rate(p.Program, k) ==> in(k, x.Counters)
+//@   loop 4: invariant forall k string :: !in(k, x.Stacks)
+//@   loop 5: invariant forall k string :: in(k, x.Counters) ==> in(k, p.Counters) && cfg.HasCounter(p.Program, k) && report.X <= cfg.Rate(p.Program, k) && x.Counters[k] == p.Counters[k]
+//@   at loop 5 entry: assert forall k string :: in(k, p.Counters) && cfg.HasCounter(p.Program, k) && report.X <= cfg.Rate(p.Program, k) ==> in(k, x.Counters)
+//@   loop 5: invariant forall k string :: in(k, x.Stacks) ==> in(k, p.Stacks) && cfg.HasStack(p.Program, specBeforeNewline(k)) && report.X <= cfg.Rate(p.Program, specBeforeNewline(k)) && x.Stacks[k] == p.Stacks[k]
+//@   loop 5: invariant forall k string :: visited(p.Stacks, k) && cfg.HasStack(p.Program, specBeforeNewline(k)) && report.X <= cfg.Rate(p.Program, specBeforeNewline(k)) ==> in(k, x.Stacks)
+// ... so that at the end of each program's iteration (loop 3) the entry appended
+// to the upload report is exactly the approved part of the local entry, for an
+// approved program build, with the five metadata fields copied.
+//@   at call Cut#1: after assume result0 == specBeforeNewline(arg0)
+//@   at loop 3 end: assert x.Program == p.Program && x.Version == p.Version && x.GoVersion == p.GoVersion && x.GOOS == p.GOOS && x.GOARCH == p.GOARCH
+//@   at loop 3 end: assert cfg.HasGoVersion(x.GoVersion) && cfg.HasProgram(x.Program) && cfg.HasVersion(x.Program, x.Version)
+//@   at loop 3 end: assert forall k string :: in(k, x.Counters) ==> in(k, p.Counters) && cfg.HasCounter(p.Program, k) && report.X <= cfg.Rate(p.Program, k)
+//@   at loop 3 end: assert forall k string :: in(k, x.Counters) ==> x.Counters[k] == p.Counters[k]
+//@   at loop 3 end: assert forall k string :: in(k, x.Stacks) <==> in(k, p.Stacks) && cfg.HasStack(p.Program, specBeforeNewline(k)) && report.X <= cfg.Rate(p.Program, specBeforeNewline(k))
+//@   at loop 3 end: assert forall k string :: in(k, x.Stacks) ==> x.Stacks[k] == p.Stacks[k]
+//@   at loop 3 end: assert len(upload.Programs) >= 1 && upload.Programs[len(upload.Programs)-1] == x
+//@   loop 3: invariant forall j int :: 0 <= j && j < len(upload.Programs) ==> upload.Programs[j] != nil && cfg.HasGoVersion(upload.Programs[j].GoVersion) && cfg.HasProgram(upload.Programs[j].Program) && cfg.HasVersion(upload.Programs[j].Program, upload.Programs[j].Version)
+//@   modifies u.cache.m, entries(u.cache.m), maps(string, int64), $fsops, $reportExists, $contributed
 
 // uploadReport: a report dated in the future is not sent.
 //@ contract (*uploader).uploadReport
